@@ -429,6 +429,7 @@ type c14Scope struct {
 	env   map[types.Object]c14V // helper parameter/receiver -> caller's argument
 	site  *c14At                // call site this scope was entered from (nil for the root)
 	depth int
+	outer *c14Scope // for the scope of a function literal: the scope of the function it is written in
 }
 
 type c14V struct {
@@ -541,6 +542,12 @@ func (v c14V) canon() c14V {
 			if !ok || lv.IsField() {
 				return v
 			}
+			if out := v.sc.outer; out != nil && (lv.Pos() < v.sc.body.Pos() || lv.Pos() >= v.sc.body.End()) {
+				// a variable captured by a function literal is resolved where it is declared
+				// (single-definition rule over the whole enclosing body, the literal included)
+				v = c14V{x: v.x, sc: out}
+				continue
+			}
 			defs, dirty := c14Defs(v.sc.info, v.sc.body, lv)
 			if dirty || len(defs) != 1 || defs[0].rhs == nil || defs[0].tuple >= 0 {
 				return v
@@ -549,6 +556,30 @@ func (v c14V) canon() c14V {
 				return v
 			}
 			v = v.with(defs[0].rhs)
+		case *ast.SelectorExpr:
+			// field of a single-definition local struct built by a literal
+			// (size := Size{Width: w, Height: h}; ... size.Width ...) is the literal's element
+			sel, ok := v.sc.info.Selections[t]
+			if !ok || sel.Kind() != types.FieldVal || sel.Indirect() || len(sel.Index()) != 1 {
+				return v
+			}
+			bid, isId := unparen(t.X).(*ast.Ident)
+			if !isId || c14PtrMethodOn(v.sc.info, v.sc.body, v.sc.info.ObjectOf(bid)) {
+				return v
+			}
+			base := v.with(t.X).canon()
+			lit, ok := base.x.(*ast.CompositeLit)
+			if !ok {
+				return v
+			}
+			if _, isStruct := base.typ().Underlying().(*types.Struct); !isStruct {
+				return v
+			}
+			el := c14LitField(base.sc.info, lit, t.Sel.Name)
+			if el == nil {
+				return v
+			}
+			v = base.with(el)
 		case *ast.CallExpr:
 			if _, isB := v.sc.info.Uses[c14FunIdent(t)].(*types.Builtin); isB {
 				return v
@@ -567,6 +598,37 @@ func (v c14V) canon() c14V {
 		}
 	}
 	return v
+}
+
+// c14PtrMethodOn: is a pointer-receiver method called on the (addressable,
+// non-pointer) variable o in body? Such a call takes &o implicitly and may
+// change its fields.
+func c14PtrMethodOn(info *types.Info, body ast.Node, o types.Object) bool {
+	if o == nil {
+		return false
+	}
+	found := false
+	ast.Inspect(body, func(n ast.Node) bool {
+		s, ok := n.(*ast.SelectorExpr)
+		if !ok || found {
+			return !found
+		}
+		sl, ok := info.Selections[s]
+		if !ok || sl.Kind() != types.MethodVal || rootObj(info, s.X) != o {
+			return true
+		}
+		if fn, ok := sl.Obj().(*types.Func); ok {
+			if sig, ok := fn.Type().(*types.Signature); ok && sig.Recv() != nil {
+				_, ptrRecv := sig.Recv().Type().(*types.Pointer)
+				_, ptrX := info.TypeOf(s.X).Underlying().(*types.Pointer)
+				if ptrRecv && !ptrX {
+					found = true
+				}
+			}
+		}
+		return true
+	})
+	return found
 }
 
 func c14FunIdent(call *ast.CallExpr) *ast.Ident {
@@ -1611,8 +1673,13 @@ func (it *c14Interp) refine(st c14State, cond *Cond, pol bool) c14State {
 	return out
 }
 
-// join: pointwise weakest bound; with widen, a bound that grew is dropped.
-func c14Join(a, b c14State, widen bool) (c14State, bool) {
+// join: pointwise weakest bound. A bound that grew is kept at its new value
+// unless grew(id, key) says that this very bound has grown too often at this
+// join point (widening: the bound is dropped). Widening is decided per bound,
+// not per block: a local that merely copies ctx.Max.Width inside a loop body
+// (whose bound moves once, from an infeasible first-pass value to Max+0) must
+// not lose that bound because other variables of the block changed.
+func c14Join(a, b c14State, grew func(id, key string) bool) (c14State, bool) {
 	out := c14State{}
 	changed := false
 	for id, va := range a {
@@ -1629,7 +1696,7 @@ func c14Join(a, b c14State, widen bool) (c14State, bool) {
 				changed = true
 			case kb > ka:
 				changed = true
-				if !widen {
+				if !grew(id, k) {
 					nv[k] = kb
 				}
 			default:
@@ -1656,7 +1723,7 @@ func (it *c14Interp) run(init c14State) {
 		it.in[entry][k] = v.clone()
 	}
 	work := []*cfg.Block{entry}
-	changes := map[*cfg.Block]int{}
+	growth := map[*cfg.Block]map[string]int{}
 	for steps := 0; len(work) > 0 && steps < 20000; steps++ {
 		b := work[len(work)-1]
 		work = work[:len(work)-1]
@@ -1676,9 +1743,16 @@ func (it *c14Interp) run(init c14State) {
 				work = append(work, s)
 				continue
 			}
-			j, ch := c14Join(old, out, changes[s] >= 3)
+			gs := growth[s]
+			if gs == nil {
+				gs = map[string]int{}
+				growth[s] = gs
+			}
+			j, ch := c14Join(old, out, func(id, key string) bool {
+				gs[id+"|"+key]++
+				return gs[id+"|"+key] > 3
+			})
 			if ch {
-				changes[s]++
 				it.in[s] = j
 				work = append(work, s)
 			}
@@ -3072,13 +3146,17 @@ func (e *c14Env) checkRender() {
 		}
 		k := fn + "/children sorted by ZIndex ascending"
 		var lit *ast.FuncLit
+		lsc := at.sc
 		if len(call.Args) == 2 {
-			lit, _ = unparen(call.Args[1]).(*ast.FuncLit)
+			// the less function: a literal, or a single-definition local bound to one
+			lv := at.sc.v(call.Args[1]).canon()
+			lit, _ = lv.x.(*ast.FuncLit)
+			lsc = lv.sc
 		}
 		if (full != "sort.Slice" && full != "sort.SliceStable") || lit == nil {
 			c.undecided("C14.d", k, call.Pos(), "sort call %s not understood (only sort.Slice/SliceStable with a literal less function)", full)
 		} else {
-			st, why := e.c14LessAscending(at.sc, lit, chID)
+			st, why := e.c14LessAscending(lsc, lit, chID)
 			switch st {
 			case "ok":
 				c.ok("C14.d", k, lit.Pos(), "%s", why)
@@ -3125,7 +3203,7 @@ func (e *c14Env) c14LessAscending(sc *c14Scope, lit *ast.FuncLit, sliceID string
 	if len(ps) != 2 || nret != 1 || len(ret.Results) != 1 || lit.Body.List[len(lit.Body.List)-1] != ast.Stmt(ret) {
 		return "undecided", "less function is not a single return over two indices"
 	}
-	ls := &c14Scope{e: sc.e, pkg: sc.pkg, info: info, fd: sc.fd, body: lit.Body, env: sc.env, site: sc.site, depth: sc.depth}
+	ls := &c14Scope{e: sc.e, pkg: sc.pkg, info: info, fd: sc.fd, body: lit.Body, env: sc.env, site: sc.site, depth: sc.depth, outer: sc}
 	x := unparen(ret.Results[0])
 	neg := false
 	for {
